@@ -163,6 +163,12 @@ def secConnectManually (C : Cfg) (s : St) (k : Nat) : St :=
         | some c => if gb s.cbOpen c then s else disconClose C s d
         | none => disconClose C s d) s2
 
+/-- the way a section that was taken out on an intact network is put back: the controller recloses its breaker if the
+section lists it, then reconnects the section (C20) -/
+def putBack (C : Cfg) (n k : Nat) (s : St) : St :=
+  let nc := C.nets.getD n default
+  secConnectManually C (if (C.secs.getD k default).switches.contains (.breaker nc.cb) then cbCloseOp C s nc.cb else s) k
+
 def anyFailed (s : St) (ls : List Nat) : Bool := ls.any (fun l => gb s.failed l)
 
 def addUnique (l : List Nat) (x : Nat) : List Nat := if l.contains x then l else l ++ [x]
